@@ -643,15 +643,16 @@ bool RegularExpression::matches(const XMLCh* const expression, const XMLSize_t s
             for (matchStart=context.fStart; matchStart<=limit; matchStart++) {
 
                 XMLInt32 ch;
+                XMLSize_t chEnd = matchStart;   // nextCh() moves its offset onto the low surrogate of a pair
 
-                if (!context.nextCh(ch, matchStart))
+                if (!context.nextCh(ch, chEnd))
                     break;
 
-                if (!range->match(ch))
-                    continue;
-
-                if (0 <= (matchEnd = match(&context,fOperations,matchStart)))
+                if (range->match(ch)
+                    && 0 <= (matchEnd = match(&context,fOperations,matchStart)))
                     break;
+
+                matchStart = chEnd;             // step over the whole character
             }
         }
         else {
